@@ -227,7 +227,7 @@ void genLoop(Rng& r, KV& kv, const Opts& o, const LoopGen& g) {
   kv.set("state", state);
   kv.set("reuse", r.chance(1, 3) ? 1L : 0L);
   kv.set("prefill", r.chance(1, 3) ? r.range(1, 6) : 0L);
-  kv.set("nest", r.pick<long>({0, 0, 0, 1, 2}));
+  kv.set("nest", r.pick<long>({0, 0, 0, 1, 2, 3, 3})); // 3: called from a worker thread of the pool
   kv.set("cts", (ty == 4 || ty == 6) && r.chance(1, 3) ? 1L : 0L);
 
   kv.set("burn", g.e1 ? r.range(0, 6) : r.pick<long>({0, 2, 50, 400}));
